@@ -23,7 +23,7 @@ CFG3 = {
 def models(tier):
     out = []
     msgs = ["rq:3:own", "rq:4:own", "rq:4:r2", "rq:3:r2", "rq:9:own", "rq:3:foreign", "rq:9:foreign", "rq:3:own:missing", "rq:9:foreign:missing",
-            "rq:3:own:missing:T", "rq:3:own:T", "dwr", "dwa", "untyped"]
+            "rq:3:own:missing:T", "rq:3:own:T", "dwr", "dwa", "untyped", "req_big"]
     alpha = []
     for c in (0, 1):
         alpha += [("m", c, n) for n in msgs]
